@@ -150,3 +150,34 @@ def result_dict(res):
         if l is not None:
             lists[m.name] = [float(x) for x in l]
     return out, lists
+
+
+_SNAP_CACHE = {}
+
+
+def assd_snap(P, R, shape, model_value):
+    """Library's float for ASSD(P, R) on a `shape` array (verified against the model)."""
+    from panoptica.metrics import Metric
+
+    key = (P, R, tuple(shape))
+    if key in _SNAP_CACHE:
+        return _SNAP_CACHE[key]
+    rm = np.zeros(shape, dtype=bool)
+    pm = np.zeros(shape, dtype=bool)
+    for c in R:
+        rm[c] = True
+    for c in P:
+        pm[c] = True
+    v = float(H.lib_call(Metric.ASSD, rm, pm))
+    if not H.same_value(v, model_value, 1e-9):
+        raise H.Violation(f"ASSD of a candidate pair is {v!r}, brute force gives {model_value!r}")
+    if len(_SNAP_CACHE) > 20000:
+        _SNAP_CACHE.clear()
+    _SNAP_CACHE[key] = v
+    return v
+
+
+def install_assd_snap():
+    from . import refmodel
+
+    refmodel.ASSD_SNAP = assd_snap
